@@ -353,7 +353,22 @@ pub fn eval(expr: Node) -> Result<Decimal, Box<dyn error::Error>> {
             let denominator = eval(*expr2)?.checked_ln().ok_or_else(undefined)?;
             numerator.checked_div(denominator).ok_or_else(undefined)
         }
-        Factorial(sub_expr) => factorial(eval(*sub_expr)?),
+        Factorial(sub_expr) => {
+            // x!!!...: the chain is unwound here instead of costing one recursion level per `!`
+            let mut operand = *sub_expr;
+            let mut count = 1;
+            while let Factorial(inner) = operand {
+                #[cfg(feature = "verif_hooks")]
+                crate::verif_hooks::tick(2);
+                operand = *inner;
+                count += 1;
+            }
+            let mut value = eval(operand)?;
+            for _ in 0..count {
+                value = factorial(value)?;
+            }
+            Ok(value)
+        }
         LambertW(expr) => lambert_w(eval(*expr)?),
         ILog(expr1, expr2) => {
             let n = eval(*expr1)?;
